@@ -63,6 +63,17 @@ def jobs(tier):
              variant='verbose'))
     add(dict(m=[2], explored=False, n_live=1, op='add_bound',
              variant='accessors'))
+    # generators inside the bound constructors
+    N = 'harness.nautilus_steps:'
+    for h, cfg in [('mixture_compute', dict(d=1, n=2)),
+                   ('mixture_compute', dict(d=2, n=3)),
+                   ('union_compute_rng', dict(d=1, n=4)),
+                   ('union_compute_rng', dict(d=1, n=3, unit=False)),
+                   ('nb_pool_merge', dict(d=1, pool=2, unroll=4,
+                                          members_in_cube=True,
+                                          open_uniform=True))]:
+        jobs.append(Job(N + h, cfg, pkg_key='bounds',
+                        block={'union': 1, 'nautilus': 2}, max_paths=6000))
     if thorough:
         add(dict(expl, n_batch=2, variant='accessors'), max_paths=20000)
         add(dict(m=[1, 1, 0], explored=False, prov=[0], n_batch=1, op='run',
